@@ -60,7 +60,10 @@ class SysWorld:
         """memo content before the call: for this system, the views of `tree` at some set of instants"""
         def lookup(q):
             # q = (system, instant-like)
-            items = q.items if isinstance(q, TupleVal) else [q]
+            if is_instant(None, q):
+                items = [q]
+            else:
+                items = q.items if isinstance(q, TupleVal) else [q]
             inst = items[-1]
             if len(items) == 2 and items[0] is not system:
                 return z3.BoolVal(False), None
